@@ -31,17 +31,17 @@ Proof.
   rewrite E in H1. discriminate.
 Qed.
 
-Lemma find_slot_in : forall (w : list (nat * string)) c i,
-  match find (fun x : nat * string => String.eqb (snd x) c) w with Some x => Some (fst x) | None => None end = Some i ->
+Lemma find_slot_in : forall (w : list (nat * nat)) c i,
+  match find (fun x : nat * nat => Nat.eqb (snd x) c) w with Some x => Some (fst x) | None => None end = Some i ->
   In (i, c) w.
 Proof.
   induction w as [| [j d] w IH]; simpl; intros c i H; [discriminate |].
-  destruct (String.eqb d c) eqn:E.
-  - apply String.eqb_eq in E. simpl in H. inversion H; subst. left; reflexivity.
+  destruct (Nat.eqb d c) eqn:E.
+  - apply Nat.eqb_eq in E. simpl in H. inversion H; subst. left; reflexivity.
   - right. apply IH. exact H.
 Qed.
 
-Lemma nodup_fst_inj : forall (w : list (nat * string)), NoDup (map fst w) ->
+Lemma nodup_fst_inj : forall (w : list (nat * nat)), NoDup (map fst w) ->
   forall i c1 c2, In (i, c1) w -> In (i, c2) w -> c1 = c2.
 Proof.
   induction w as [| [j d] w IH]; simpl; intros Hn i c1 c2 H1 H2; [contradiction |].
@@ -172,7 +172,7 @@ Lemma same_insts_trans : forall T1 T2 T3, same_insts T1 T2 -> same_insts T2 T3 -
 Proof. unfold same_insts; intros; congruence. Qed.
 
 (* sequences of lookups on one type: the cache is transparent (the statement about Type.c alone) *)
-Fixpoint lookups (b : bool) (t : tyobj) (cs : list string) : list (option inst) :=
+Fixpoint lookups (b : bool) (t : tyobj) (cs : list cls) : list (option inst) :=
   match cs with
   | [] => []
   | c :: r => let '(t', x) := lookup b t c in x :: lookups b t' r
@@ -571,15 +571,15 @@ Proof. exists (AGet 0), []. split; reflexivity. Qed.
 (* the dispatching API: with sound caches, calls on which the METHOD check does not fire give the same
    instances under every configuration; and it does matter: an unsound cache changes the answer *)
 Definition two_types : types :=
-  [fresh_type [("Len"%string, 7%nat); ("Hash"%string, 9%nat)]; fresh_type [("Len"%string, 3%nat)]].
+  [fresh_type [(11, 7); (10, 9)]%nat; fresh_type [(11, 3)]%nat].     (* 11 = Len, 10 = Hash *)
 
 Lemma two_types_ok : types_ok two_types.
 Proof. repeat constructor; apply fresh_type_ok. Qed.
 
 Lemma dispatch_example :
-  history_fires unit nat dop dbody [DCall 0 "Len"; DCall 0 "Hash"; DCall 1 "Len"; DCall 0 "Len"]%string tt two_types = false /\
+  history_fires unit nat dop dbody [DCall 0 11; DCall 0 10; DCall 1 11; DCall 0 11]%nat tt two_types = false /\
   hout unit nat (run_history unit nat dop dbody (cfg_build true true true)
-                   [DCall 0 "Len"; DCall 0 "Hash"; DCall 1 "Len"; DCall 0 "Len"]%string tt two_types)
+                   [DCall 0 11; DCall 0 10; DCall 1 11; DCall 0 11]%nat tt two_types)
     = [OVal 7; OVal 9; OVal 3; OVal 7]%nat.
 Proof. split; vm_compute; reflexivity. Qed.
 
@@ -587,11 +587,11 @@ Proof. split; vm_compute; reflexivity. Qed.
    produces) is visible: the soundness hypothesis cannot be dropped either *)
 Lemma unsound_cache_differs :
   exists T, same_insts T two_types /\
-    rout unit nat (run unit nat cfg_default (dbody (DCall 0 "Hash"%string)) tt T) <>
-    rout unit nat (run unit nat (cfg_build false true false) (dbody (DCall 0 "Hash"%string)) tt T).
+    rout unit nat (run unit nat cfg_default (dbody (DCall 0 10%nat)) tt T) <>
+    rout unit nat (run unit nat (cfg_build false true false) (dbody (DCall 0 10%nat)) tt T).
 Proof.
-  exists [mkTy (set_slot (repeat None cello_cache_num) 6 (Some 7%nat)) [("Len"%string, 7%nat); ("Hash"%string, 9%nat)];
-          fresh_type [("Len"%string, 3%nat)]].
+  exists [mkTy (set_slot (repeat None cello_cache_num) 6 (Some 7%nat)) [(11, 7); (10, 9)]%nat;
+          fresh_type [(11, 3)]%nat].
   split; [reflexivity |]. vm_compute. discriminate.
 Qed.
 
@@ -617,7 +617,7 @@ Proof. split; vm_compute; reflexivity. Qed.
 
 Lemma cache_wiring_audited :
   nodupb (map fst cfg_cache_wiring) = true /\
-  forallb (fun w : nat * string => Nat.ltb (fst w) cello_cache_num) cfg_cache_wiring = true /\
+  forallb (fun w : nat * nat => andb (Nat.ltb (fst w) cello_cache_num) (Nat.ltb (snd w) (List.length cfg_class_names))) cfg_cache_wiring = true /\
   List.length cfg_cache_wiring = cello_cache_num.
 Proof. repeat split; vm_compute; reflexivity. Qed.
 
